@@ -360,7 +360,17 @@ class Checker:
 
     _soft_hard = False
 
-    def soft(self, covered_by, undecided=False):
+    # (file, qualified function name) of every repository function a fold of this run has executed
+    covered: set = None
+    _soft_cov = False
+
+    def add_coverage(self, interp):
+        if self.covered is None:
+            self.covered = set()
+        for mod, node in (interp.executed or {}).values():
+            self.covered.add((mod.rel, mod.qualname_of(node) if not isinstance(node, ast.Lambda) else '<lambda>'))
+
+    def soft(self, covered_by, undecided=False, need_coverage=False):
         """Context manager.  Inside it the structural (shape) rules speak only when they recognise what they see:
         a failed check, a failed `need`, a missing anchor or an unmet instance floor means "this is written in a way
         the rule does not know", and the clause is left to the fold named in `covered_by` (which decides the behaviour
@@ -370,8 +380,8 @@ class Checker:
 
         @contextlib.contextmanager
         def scope():
-            prev = (ck._soft, ck._soft_hard)
-            ck._soft, ck._soft_hard = covered_by, undecided
+            prev = (ck._soft, ck._soft_hard, ck._soft_cov)
+            ck._soft, ck._soft_hard, ck._soft_cov = covered_by, undecided, need_coverage
             try:
                 yield
             except (_SoftAbort, AnalysisError, AttributeError, IndexError, KeyError, TypeError, ValueError, StopIteration) as e:
@@ -382,7 +392,7 @@ class Checker:
                 else:
                     ck.notes.setdefault('structural_rules_not_applicable', []).append(f'{str(e)[:200]} [left to {covered_by}]')
             finally:
-                ck._soft, ck._soft_hard = prev
+                ck._soft, ck._soft_hard, ck._soft_cov = prev
         return scope()
 
     def hard_on(self):
@@ -399,6 +409,12 @@ class Checker:
         )
 
     def bad(self, rule, mod, node, what, msg, detail=None, construct=None):
+        if self._soft and self._soft_cov and self.covered is not None:
+            loc = self.repo.loc(mod, node, construct)
+            if (loc.file, loc.func) not in self.covered:
+                # the fold that would decide this clause never entered the function: the shape rule's finding stands
+                self.obligations.append(Obligation(rule, loc, what, 'violation', msg + f' [function not exercised by {self._soft}]', detail))
+                return
         if self._soft:
             if self._soft_hard:
                 self.undecided(rule, mod, node, what, msg, construct)
